@@ -34,6 +34,16 @@ _ADDR = _re.compile(r"0x[0-9a-fA-F]+")   # object addresses in messages
 
 # ---- instances --------------------------------------------------------------
 
+class StrictQuantity(Quantity):
+    """A quantity class that knows a few units and refuses the rest."""
+    KNOWN = {"m", "km", "mm", "Mm", "s", "ms", "Ms", "km/s", "g", "G"}
+
+    def __new__(cls, value, units):
+        if units not in cls.KNOWN:
+            raise ValueError("'%s' did not parse as unit" % (units,))
+        return super().__new__(cls, value, units)
+
+
 def make_instance(kind):
     """kind: 'parser:<cfg>' | 'encoder:<cfg>' | 'decoder:<cfg>' |
     'shared:validate:<dialect>:parser|encoder' | 'shared:translate:<fmt>'"""
@@ -43,7 +53,12 @@ def make_instance(kind):
     if parts[0] == "encoder":
         return dialects.make_encoder(parts[1])
     if parts[0] == "decoder":
-        return dialects.make_parser(parts[1]).decoder
+        d = dialects.make_parser(parts[1]).decoder
+        if len(parts) > 2 and parts[2] == "strictq":
+            # the documented quantity_cls option with a class that, like
+            # astropy's or pint's, refuses units it does not know
+            return type(d)(grammar=d.grammar, quantity_cls=StrictQuantity)
+        return d
     if parts[0] == "shared":
         if parts[1] == "validate":
             import pvl.pvl_validate as v
@@ -102,6 +117,12 @@ def build_module(spec):
         return PVLModule([("note", "Caf\u00e9 \u20ac"), ("b", 1)])
     if name == "control":
         return PVLModule([("note", "bell\x07 del\x7f"), ("b", 1)])
+    if name == "datelike-strings":
+        # strings whose quoting depends on the grammar's and decoder's
+        # tables (date-time formats, reserved characters, keywords)
+        return PVLModule([("t", "2021-03-04T10:11:12-08:00"),
+                          ("u", "12:30:15+01:00"), ("w", "A+B"),
+                          ("v", "END"), ("x", "2001-001T01:02:03-0800")])
     if name == "nested":
         return PVLModule([("o", PVLObject([("g", PVLGroup([("k", [1, 2])])),
                                             ("t", "two words")]))])
@@ -110,7 +131,8 @@ def build_module(spec):
 
 SPECIALS = ["longname", "bothquotes", "set-of-reals", "naive-time",
             "group-only", "quantity", "unserializable", "nested",
-            "nonascii", "nonascii", "control"]
+            "nonascii", "nonascii", "control", "datelike-strings",
+            "datelike-strings"]
 
 DECODE_POOL = ["12", "-3.5", "16#FF#", "2#101#", "'q s'", '"x"', "abc",
                "NULL", "true", "2001-01-01", "12:30:15Z", "2001-001T01:02:03",
@@ -286,6 +308,7 @@ class C16(Property):
         ks = ["parser:" + c for c in dialects.CONFIGS] * 3
         ks += ["encoder:" + c for c in ENC_NAMES]
         ks += ["decoder:" + c for c in dialects.CONFIGS]
+        ks += ["decoder:%s:strictq" % c for c in ("ODL", "default")]
         ks += ["shared:validate:%s:parser" % d
                for d in ("PDS3", "ODL", "PVL", "ISIS", "Omni")]
         ks += ["shared:validate:%s:encoder" % d
@@ -393,13 +416,21 @@ class C16(Property):
                     # the instance handed to the library's own entry points
                     calls[-1]["via"] = rng.choice(["dumps", "dump"])
             else:
+                if kind.endswith(":strictq") and rng.random() < 0.7:
+                    calls.append({"fn": "decode_quantity", "arg": [
+                        rng.choice([5, 1.5]), rng.choice(
+                            ["KM", "Mm", "mm", "Ms", "ms", "G", "g", "km",
+                             "furlong", "M"])]})
+                    continue
                 fn = rng.choice(["decode", "decode", "decode_simple_value",
                                  "decode_datetime", "decode_decimal",
                                  "decode_non_decimal", "decode_quoted_string",
                                  "decode_unquoted_string", "decode_quantity"])
                 if fn == "decode_quantity":
                     calls.append({"fn": fn, "arg": [
-                        rng.choice([5, 1.5, "x"]), rng.choice(["m", "km/s"])]})
+                        rng.choice([5, 1.5, "x"]), rng.choice(
+                            ["m", "km/s", "KM", "Mm", "mm", "Ms", "ms", "G",
+                             "furlong", ""])]})
                 else:
                     calls.append({"fn": fn, "arg": rng.choice(DECODE_POOL)})
         return calls
